@@ -321,7 +321,11 @@ def r9_3(ctx: Ctx) -> RuleResult:
                 for a in ast.walk(f.node):
                     if isinstance(a, ast.Assign) and a.value is v:
                         conds = path_conditions(f.node, a)
-                if any("len(children) == 0" in ast.unparse(t) and b for t, b in conds):
+                # the condition must *imply* that there are no children: an atomic
+                # conjunct, not one disjunct of an `or`
+                if any(ast.unparse(t).replace(" ", "") in ("len(children)==0", "notchildren") and b for t, b in conds) or any(
+                    ast.unparse(t).replace(" ", "") == "children" and not b for t, b in conds
+                ):
                     continue
                 bad.append(v)
             if bad:
